@@ -1,3 +1,4 @@
+import NibabelModel.Basic.PyVal
 /-! Parsing / printing helpers for the line-protocol driver (core Lean only). -/
 namespace Nb.Drv
 
@@ -36,4 +37,44 @@ def runDriver (pid : String) (handle : List String → String) : IO Unit := do
   loop (fun toks => match toks with
     | p :: rest => if p = pid then handle rest else "bad-op"
     | [] => "bad-op") (← IO.getStdin) out
+end Nb.Drv
+
+namespace Nb.Drv
+open Nb.Py
+
+/-- canonical text of a Python value of the translated fragment (must match `harness/py2lean.show_v`) -/
+partial def showV : V → String
+  | .none => "N"
+  | .bool b => if b then "b1" else "b0"
+  | .int i => "i" ++ toString i
+  | .frac n d => "f" ++ toString n ++ "/" ++ toString d
+  | .str s => "q" ++ s
+  | .slice a b c => "s(" ++ showV a ++ "," ++ showV b ++ "," ++ showV c ++ ")"
+  | .tup2 a b => "(" ++ showV a ++ ";" ++ showV b ++ ")"
+  | .tup3 a b c => "(" ++ showV a ++ ";" ++ showV b ++ ";" ++ showV c ++ ")"
+
+def showErr : Err → String
+  | .typeError => "ERR:TypeError"
+  | .valueError => "ERR:ValueError"
+  | .zeroDivision => "ERR:ZeroDivisionError"
+  | .indexError => "ERR:IndexError"
+  | .unsupported => "ERR:unsupported"
+
+def showM : M V → String
+  | .ok v => showV v
+  | .error e => showErr e
+
+/-- argument tokens: `N`, `b0`/`b1`, `i<int>`, `q<text>`, `s<a>,<b>,<c>` with `_` for None -/
+def parseV? (s : String) : Option V :=
+  if s = "N" then some .none
+  else if s = "b0" then some (.bool false)
+  else if s = "b1" then some (.bool true)
+  else if s.startsWith "i" then (s.drop 1).toString.toInt?.map V.int
+  else if s.startsWith "q" then some (.str (s.drop 1).toString)
+  else if s.startsWith "s" then
+    match ((s.drop 1).toString.splitOn ",").mapM parseOptInt? with
+    | some [a, b, c] => some (.slice (V.ofOptInt a) (V.ofOptInt b) (V.ofOptInt c))
+    | _ => none
+  else none
+
 end Nb.Drv
